@@ -35,15 +35,15 @@ CHECK = "evidence"
 A_COEF = 1.5
 A_CAP = 0.4  # the Jensen allowance may not exceed 0.4 nats, whatever the spread
 CHUNK = 4
-FAMS = ["gauss", "wall", "bimodal", "periodic", "exp-prior", "zero-region", "narrow"]
+FAMS = ["gauss", "wall", "bimodal", "periodic", "exp-prior", "zero-region", "narrow", "mixed"]
 
 
 def cells_for(tier, seed):
     rng = np.random.default_rng([seed, 202])
-    n = 7 if tier == "quick" else 28
+    n = 8 if tier == "quick" else 32
     cells = []
     for i in range(n):
-        cells.append(ens.make_cell(int(rng.integers(0, 2**31 - 1)), family=FAMS[i % len(FAMS)], kernel=["tpcn", "rwm"][(i + i // len(FAMS)) % 2], clustering=bool(i % 2 == 0), N=32))
+        cells.append(ens.make_cell(int(rng.integers(0, 2**31 - 1)), family=FAMS[i % len(FAMS)], kernel=["tpcn", "rwm"][(i + i // len(FAMS)) % 2] if FAMS[i % len(FAMS)] != "mixed" else "rwm", clustering=bool(i % 2 == 0), N=32))
     # dynamic (volume-variation) mode with a target tight enough that the schedule repeatedly stays / takes tiny steps
     for j in range(1 if tier == "quick" else 4):
         cells.append(ens.make_cell(int(rng.integers(0, 2**31 - 1)), family=["gauss", "exp-prior", "wall", "bimodal"][j % 4], kernel=["rwm", "tpcn"][j % 2],
